@@ -184,6 +184,11 @@ def poly_program(rng):
             order.append(f"r{len(order)} = {name}({', '.join(args)})")
             order.append(f"mon.write(r{len(order) - 1 if False else len(order) // 2})") if False else None
     # emit calls + prints (result names are unique)
+    if rng.random() < 0.5:
+        # a parallel assignment reads the OLD values on its right-hand side: a float name re-bound to a whole number in an
+        # earlier position still hands its old (fractional) value to a later target
+        L += ["lv = 2.5", "lv, prevv = 3, lv", "mon.write(prevv)", "gain = 0.75", "lo2 = 4", "gain, lo2, oldg = lo2, 0, gain", "mon.write(oldg)"]
+        # (the same statement on a PARAMETER re-types the parameter itself: known finding KF-param-retype-in-body, not generated)
     if rng.random() < 0.4:
         # a comprehension variable that shadows a typed outer name must not change that name's type afterwards
         L += ["kq = 0.5", "xs = [kq * 2 for kq in range(3)]", "zq = kq + 1", "mon.write(zq)", "mon.write(xs[2])"]
